@@ -5,6 +5,7 @@ One case per input line: `<id> <op> <args…>`; one output line per case:
 -/
 import MT.Proto
 import MT.Cli
+import MT.CliMain
 
 open MT MT.Proto
 
@@ -259,6 +260,7 @@ def runLine (line : String) : String :=
     | "wmem" => Cli.opWmem
     | "winfo" => Cli.opWinfo
     | "cli" => Cli.opCli
+    | "clirun" => Cli.opCliRun
     | _ => throw s!"unknown op {op}"
   match p.run { toks, pos := 2 } with
   | .ok (fields, _) => id ++ " " ++ " ".intercalate fields
